@@ -101,14 +101,14 @@ Inductive Scanned (b : bytes) : nat -> list kv3 -> option scan_err -> nat -> Pro
     scan_next b r = Ok (NKV k v inner r1) -> Scanned b r1 l e r2 -> Scanned b r ((k, v, inner) :: l) e r2.
 
 (* w = the buffered bytes; the head in them has request line `line` and the scanner yields the fields l,
-   stopping without error *)
+   stopping without error (an empty header block yields none) *)
 Definition HeadFields (w : bytes) (line : req_line) (l : list kv3) : Prop :=
-  exists rest raw rawEnd b r,
+  exists rest raw rawEnd,
     req_parseFirstLine w = Ok (FLOk line) /\
     slice w (rl_len line) (length w) = Ok rest /\
     readRawHeaders rest = Ok (Some (raw, rawEnd)) /\
-    scan_init rest rawEnd = Ok (IReady b) /\
-    Scanned b 0 l None r.
+    ((scan_init rest rawEnd = Ok IEmpty /\ l = []) \/
+     (exists b r, scan_init rest rawEnd = Ok (IReady b) /\ Scanned b 0 l None r)).
 
 (* ================= trailers ================= *)
 Inductive ptr_res := PTOk (n : nat) | PTNeedMore | PTErr.
@@ -224,6 +224,7 @@ Record fcfg := {
 Definition hcfg_of (c : fcfg) : hcfg := {| disable_norm := c_nonorm c; disable_special := false; secure_err := false |}.
 
 Record dispatched := {
+  dp_win : bytes;              (* what the head parser saw: the next bsize unread bytes (not an observable) *)
   dp_off : nat;                (* stream offset at which the request's head was read *)
   dp_hlen : nat;               (* bytes consumed by the head *)
   dp_len : nat;                (* bytes consumed by head and body *)
@@ -332,7 +333,7 @@ Fixpoint serve (fuel : nat) (c : fcfg) (rem : bytes) (off : nat) : list dispatch
                     | RbBug => ([], [], OBug)
                     | RbOk body rest =>
                         let len := length rem - length rest in
-                        let d := {| dp_off := off; dp_hlen := n; dp_len := len; dp_method := meth hd;
+                        let d := {| dp_win := w; dp_off := off; dp_hlen := n; dp_len := len; dp_method := meth hd;
                                     dp_uri := target hd; dp_body := body; dp_close := conn_close hd |} in
                         let r := {| rs_status := StatusOK; rs_close := conn_close hd |} in
                         pre (cons_d d (cons_r r
